@@ -24,6 +24,8 @@ class SLCDevice:
         self.log = []  # dicts: fnc, size, file, type, element, sub, mask, data, raw
         self.strict_escape = strict_escape
         self.processor = processor
+        self.sys0 = None  # image of system file 0 (the file directory), word addressed, or None when the target has none
+        self.datalog = {}  # queue number -> list of pending records (bytes)
 
     def attach(self, target):
         self.target = target
@@ -37,6 +39,25 @@ class SLCDevice:
                 b[i] = fill(i) & 0xFF
         self.files[(typ, number)] = b
         return b
+
+    def make_directory(self, pad_to=200):
+        """Build system file 0 in the SLC 5/05 layout from the data table: own size at word 0x23, file counts, 10-byte rows from byte 79."""
+        rows = b""
+        top = max((n for _, n in self.files), default=-1)
+        by_no = {n: (t, f) for (t, n), f in self.files.items()}
+        for n in range(top + 1):
+            if n in by_no:
+                t, f = by_no[n]
+                rows += bytes([TYPE_CODE[t]]) + struct.pack("<H", len(f)) + bytes(7)
+            else:
+                rows += b"\x81" + bytes(9)
+        img = bytearray(max(79 + len(rows), pad_to))
+        img[79 : 79 + len(rows)] = rows
+        img[46] = 3
+        img[52] = len(self.files)
+        struct.pack_into("<H", img, 0x46, len(img))
+        self.sys0 = img
+        return img
 
     def snapshot(self):
         return {k: bytes(v) for k, v in self.files.items()}
@@ -89,6 +110,28 @@ class SLCDevice:
     def pccc(self, fnc, body):
         entry = {"fnc": fnc, "raw": bytes(body)}
         self.log.append(entry)
+        if fnc == 0xA1 and self.sys0 is not None:
+            # protected typed logical read with two address fields, system file 0: `size` bytes from word `element`
+            try:
+                size = body[0]
+                fileno, pos = self._field(body, 1)
+                ftype = body[pos]
+                elem, pos = self._field(body, pos + 1)
+            except (ValueError, IndexError) as e:
+                entry["error"] = str(e)
+                return 0x10, b""
+            entry.update(size=size, file=fileno, type=ftype, element=elem)
+            if pos != len(body) or fileno != 0 or ftype > 3 or size == 0 or elem * 2 + size > len(self.sys0):
+                entry["error"] = "bad system file read"
+                return 0x10, b""
+            return 0, bytes(self.sys0[elem * 2 : elem * 2 + size])
+        if fnc == 0xA2 and len(body) >= 3 and body[2] == 0xA5 and self.datalog:
+            # data log queue: each read takes the oldest record of the queue; an empty queue answers with an error
+            q = self.datalog.get(body[3] if len(body) > 3 else None)
+            entry.update(type="datalog", element=body[3] if len(body) > 3 else None)
+            if not q:
+                return 0x10, b""
+            return 0, q.pop(0)
         if fnc not in (0xA2, 0xAA, 0xAB):
             return 0x10, b""
         try:
